@@ -10,7 +10,7 @@ import struct
 import numpy as np
 
 from ..core.index import AnalysisError, walk_no_defs, calls_in, call_name, kwarg
-from ..core.cfg import node_calls
+from ..core.cfg import CFG, node_calls
 from ..core import norm
 from ..core.vec import Vec, Opaque, OptVec, SliceVal
 from ..spec import rfc6455
@@ -549,3 +549,75 @@ def run(ctx):
     rule_failure_policy(ctx)
     rule_control_dispatch(ctx)
     rule_delivery_gate(ctx)
+    rule_progress(ctx)
+
+
+def rule_progress(ctx, rule_id="C02.7-complete-frames-need-no-further-octets"):
+    """Structural necessary condition of read-boundary independence: processData() asks to be called again exactly when
+    it can make progress without new input -- in particular a zero-length frame whose header ended the buffer is completed now."""
+    import numpy as np
+    from ..core.vec import Vec
+    ctx.rule(rule_id)
+    p = ctx.program
+    fn = p.func(f"{WSP}.processData")
+    ctx.analysed(fn)
+    res = norm.Resolver(p, fn.module, fn.cls)
+    top = [s for s in fn.node.body if isinstance(s, ast.If) and norm.text(s.test) == "self.current_frame is None"]
+    ctx.require(len(top) == 1, "processData: `if self.current_frame is None` split not found")
+    hdr, inside = top[0].body, top[0].orelse
+    PL, DL = np.meshgrid(np.array([0, 1, 125, 126, 65536, 2 ** 40]), np.array([0, 1, 9]), indexing="ij")
+    pl, dl = PL.ravel(), DL.ravel()
+    n = len(pl)
+
+    def evaluate(expr, env):
+        def attr_hook(text, node, mask):
+            return env.get(text, NotImplemented)
+
+        def call_hook(call, mask, interp):
+            t = norm.text(call)
+            return env.get(t, NotImplemented)
+        v = Vec(n, res, attr_hook, call_hook)
+        return v.truth(v.eval(expr, np.ones(n, dtype=bool)))
+    # header branch: the return that follows self.onFrameBegin()
+    rets = []
+    for x in ast.walk(ast.Module(body=hdr, type_ignores=[])):
+        body = getattr(x, "body", None)
+        if isinstance(body, list):
+            for blk in (body, getattr(x, "orelse", []) or []):
+                for a, b in zip(blk, blk[1:]):
+                    if isinstance(a, ast.Expr) and isinstance(a.value, ast.Call) and self_call(a.value, "onFrameBegin") and isinstance(b, ast.Return):
+                        rets.append(b)
+    ctx.require(len(rets) == 1, "processData: return after onFrameBegin() not found")
+    try:
+        got = evaluate(rets[0].value, {"frame_payload_len": pl, "len(self.data)": dl, "buffered_len": dl})
+        want = (pl == 0) | (dl > 0)
+        bad = np.nonzero(got != want)[0]
+        ex = f"payload length {int(pl[bad[0]])}, {int(dl[bad[0]])} octets left in the buffer: returns {bool(got[bad[0]])}" if len(bad) else ""
+        ctx.ob("after a complete header, processing continues iff the frame is empty or octets are buffered", len(bad) == 0,
+               f"`{stmt_key(rets[0])}`: {ex} -- a zero-length frame (empty ping/pong/close/message, empty final fragment) whose header ends a read "
+               f"would stay pending until unrelated later octets arrive", fn.loc(rets[0]))
+    except AnalysisError as e:
+        ctx.ob("after a complete header, processing continues iff the frame is empty or octets are buffered", False, f"return expression not analysable: {e}", fn.loc(rets[0]))
+    # inside-frame branch: last return
+    tail = [s for s in inside if isinstance(s, ast.Return)]
+    ctx.require(len(tail) == 1, "processData: final return of the in-frame branch not found")
+    try:
+        got = evaluate(tail[0].value, {"len(self.data)": dl, "buffered_len": dl})
+        ctx.ob("after frame payload, processing continues iff octets are left", bool((got == (dl > 0)).all()), f"`{stmt_key(tail[0])}`", fn.loc(tail[0]))
+    except AnalysisError as e:
+        ctx.ob("after frame payload, processing continues iff octets are left", False, f"return expression not analysable: {e}", fn.loc(tail[0]))
+    # empty payload still reaches onFrameData / onFrameEnd
+    g = CFG(fn.node)
+    fd = [n_ for n_ in g.stmt_nodes() for c in node_calls(n_) if self_call(c, "onFrameData")]
+    ctx.require(len(fd) == 1, "processData: onFrameData call not found")
+    first_inside = [n_ for n_ in g.stmt_nodes() if n_.ast is inside[0]]
+    ctx.ob("the frame-data hook runs on every pass through the in-frame branch (also with an empty payload)",
+           bool(first_inside) and not g.path_exists(first_inside[0], g.exit, avoid=lambda x: x is fd[0], edge_ok=CFG._no_exc(None)),
+           "a path through the in-frame branch skips onFrameData: zero-length frames would never end", fn.loc(fd[0].ast))
+    # driver loop
+    cd = p.func(f"{WSP}.consumeData")
+    ctx.analysed(cd)
+    loops = [s for s in ast.walk(cd.node) if isinstance(s, ast.While) and any(self_call(c, "processData") for c in ast.walk(s.test) if isinstance(c, ast.Call))]
+    ok = bool(loops) and all(isinstance(l.test, ast.BoolOp) and isinstance(l.test.op, ast.And) and isinstance(l.test.values[0], ast.Call) and self_call(l.test.values[0], "processData")
+                             and all(isinstance(s, ast.Pass) for s in l.body) for l in loops)
+    ctx.ob("consumeData() repeats processData() while it asks for it (and the connection is not closed)", ok, "driver loop changed", cd.loc())
